@@ -525,6 +525,11 @@ func runCase(cs Case, work string) caseOut {
 			if led.confirmed[ch.ID] {
 				add("delivered-after-confirmed", fmt.Sprintf("gen %d: chunk %s delivered again after it had been confirmed", gi, ch.ID))
 			}
+			if skipped[ch.ID] {
+				// more files than the queue holds: recovery must take the OLDEST ones (creation order) and leave the newer ones
+				// for a later start; this one is not among the Q oldest that were on disk when the generation started
+				add("recovery-not-oldest-first", fmt.Sprintf("gen %d: chunk %s was recovered and delivered although %d older chunk files were on disk at the start and the queue holds only %d", gi, ch.ID, cs.Q, cs.Q))
+			}
 			if seen[ch.ID] > 1 {
 				add("double-delivery", fmt.Sprintf("gen %d: chunk %s delivered %d times within one generation", gi, ch.ID, seen[ch.ID]))
 			}
